@@ -411,7 +411,7 @@ class Normaliser:
                     later = {n.id for (_, v2) in pairs[k + 1:] for n in ast.walk(v2) if isinstance(n, ast.Name)}
                     if t.id in later:
                         safe = False
-                if safe and len(pairs) < len(names):
+                if safe:
                     new = [ast.copy_location(ast.Assign(targets=[t], value=v), s) for t, v in pairs] or [ast.copy_location(ast.Pass(), s)]
                     stmts[i:i] = new
                     continue
@@ -442,6 +442,16 @@ class Normaliser:
                 s.finalbody = self.block(s.finalbody, local_funcs, stack)
             elif isinstance(s, ast.With):
                 s.body = self.block(s.body, local_funcs, stack)
+            # `a, b = helper(...)` whose inlined helper returned a tuple display: bind component-wise
+            if isinstance(s, ast.Assign) and len(s.targets) == 1 and isinstance(s.targets[0], ast.Tuple) and \
+                    isinstance(s.value, ast.Name) and prefix and isinstance(prefix[-1], ast.Assign) and \
+                    isinstance(prefix[-1].targets[0], ast.Name) and prefix[-1].targets[0].id == s.value.id and \
+                    '__i' in s.value.id and isinstance(prefix[-1].value, ast.Tuple) and \
+                    len(prefix[-1].value.elts) == len(s.targets[0].elts):
+                s.value = prefix[-1].value
+                out.extend(prefix[:-1])
+                stmts.insert(i, s)
+                continue
             out.extend(prefix)
             out.append(s)
         return out
